@@ -362,11 +362,28 @@ def finish(ctx, replay_in_process=None):
     violations, known, notrepro = [], [], []
     seen_known = set()
     max_replays = int(os.environ.get("VERIF_MAX_REPLAYS", "60"))
-    for n, c in enumerate(ctx.candidates):
+    # candidates that fall under an open known finding are replayed once per finding (the first of them) and do not use up
+    # the replay budget: a known finding must never crowd out a new violation
+    fresh = [c for c in ctx.candidates if match_finding(findings, ctx.pid, c["key"], c["clause"]) is None]
+    under_known = [c for c in ctx.candidates if match_finding(findings, ctx.pid, c["key"], c["clause"]) is not None]
+    first_of_finding, rest_known = [], 0
+    seen_ids = set()
+    for c in under_known:
+        fid = match_finding(findings, ctx.pid, c["key"], c["clause"])["id"]
+        if fid in seen_ids:
+            rest_known += 1
+        else:
+            seen_ids.add(fid)
+            first_of_finding.append(c)
+    if rest_known:
+        ctx.notes.append(f"{rest_known} further instance(s) under known findings {sorted(seen_ids)} were not replayed individually")
+    ordered = first_of_finding + fresh
+    budget_from = len(first_of_finding)
+    for n, c in enumerate(ordered):
         path = os.path.join(OUT_DIR, "replays", f"{ctx.pid}-{n}.json")
         with open(path, "w") as f:
             json.dump({"property": ctx.pid, **c}, f, indent=1, default=str)
-        if n >= max_replays:
+        if n - budget_from >= max_replays:
             ctx.inconc(c["key"], "candidate not replayed (replay budget exhausted)")
             continue
         try:
